@@ -849,6 +849,52 @@ example : (rotateBlock 1 (Block.mk true [.multi [(1, 0, 0), (-1, 1, 0), (0, -1, 
 example : ∀ s ∈ [((1 : Int), (0 : Int), (0 : Int)), (-1, 1, 0), (0, -1, 0)], s ∉ [((0 : Int), (1 : Int), (0 : Int)), (-1, 0, 0), (1, -1, 0)] := by
   decide
 
+/-! ### three-index arguments (i, j, k) with k ≠ 0 -/
+
+/-- **the axial index takes no part in any symmetry answer**: equivalents, line class, first-third membership and
+domain membership of (i, j, k) are those of (i, j) — for every k -/
+theorem symmetry_ignores_axial_index (i j k : Int) (sym : Nat) (top third ov : Bool) :
+    sym3K (i, j, k) = sym3 (i, j) ∧ hexEquivalentsK sym (i, j, k) = hexEquivalents sym (i, j) ∧
+    lineOfK (i, j, k) = lineOf (i, j) ∧ inFirstThirdK top (i, j, k) = inFirstThird top (i, j) ∧
+    hexInDomainK third ov (i, j, k) = hexInDomain third ov (i, j) := ⟨rfl, rfl, rfl, rfl, rfl⟩
+
+/-- **the centre cell at ANY axial index is its own orbit**: no equivalents (multiplicity 1), in third-core and in
+full-core grids; it is classified as the centre and lies in the first third -/
+theorem centre_cell_any_k (k : Int) (top : Bool) :
+    sym3K (0, 0, k) = [] ∧ hexEquivalentsK 1 (0, 0, k) = some [] ∧ hexEquivalentsK 0 (0, 0, k) = some [] ∧
+    lineOfK (0, 0, k) = 4 ∧ inFirstThirdK top (0, 0, k) = true := by
+  refine ⟨rfl, rfl, rfl, rfl, ?_⟩
+  show inFirstThird top (0, 0) = true
+  cases top <;> decide
+
+/-- off the centre, at any axial index: exactly two equivalents, the 120° and 240° images of (i, j), distinct from
+the cell and from each other -/
+theorem third_equivalents_any_k (i j k : Int) (h : (i, j) ≠ (0, 0)) :
+    sym3K (i, j, k) = [rotateIndex 2 (i, j), rotateIndex 4 (i, j)] ∧
+    rotateIndex 2 (i, j) ≠ (i, j) ∧ rotateIndex 4 (i, j) ≠ (i, j) ∧ rotateIndex 2 (i, j) ≠ rotateIndex 4 (i, j) :=
+  ⟨third_equivalents_are_120_images (i, j) h, third_orbit_distinct (i, j) h⟩
+
+/-- **`rotateIndex` on a location with any axial index**: the axial index is handed through unchanged, (i, j) rotate
+as in the plane; additive, period six, undone by the opposite rotation -/
+theorem rotateLoc_spec (n m : Int) (c : Int × Int × Int) :
+    (rotateLoc n c).2.2 = c.2.2 ∧
+    ((rotateLoc n c).1, (rotateLoc n c).2.1) = rotateIndex n (c.1, c.2.1) ∧
+    rotateLoc m (rotateLoc n c) = rotateLoc (n + m) c ∧ rotateLoc 6 c = c ∧ rotateLoc (-n) (rotateLoc n c) = c := by
+  refine ⟨rfl, rfl, rotCell_add n m c, ?_, rotCell_neg n c⟩
+  obtain ⟨i, j, z⟩ := c
+  simp only [rotateLoc, rotCell, rot_six_id]
+
+/-- **in a 3-D hex grid the cell centre rotates about the z axis**: x, y coefficients by the k-fold 60° step, the z
+coordinate (k·dz) unchanged — both orientations, every integer number of rotations -/
+theorem rotateLoc_geom (cu : Bool) (n : Int) (c : Int × Int × Int) :
+    (coef3 cu (rotateLoc n c)).2.2 = (coef3 cu c).2.2 ∧
+    ((2 : Int) ^ (n % 6).toNat * (coef3 cu (rotateLoc n c)).1, (2 : Int) ^ (n % 6).toNat * (coef3 cu (rotateLoc n c)).2.1) =
+      iter (R60x2 cu) (n % 6).toNat ((coef3 cu c).1, (coef3 cu c).2.1) :=
+  ⟨rfl, rot_geom_iter cu n (c.1, c.2.1)⟩
+
+example : rotateLoc 1 (1, 0, 3) = (0, 1, 3) ∧ sym3K (0, 0, 3) = [] ∧ sym3K (2, -1, 5) = [(-1, 2), (-1, -1)] := by decide
+example : ((2 : Int), (-1 : Int)) ≠ (0, 0) := by decide
+
 /-! ### HexAssembly.rotate -/
 
 /-- **rotating an assembly rotates every block, each on its own**: same number of blocks, the n-th block of the
@@ -1092,6 +1138,13 @@ theorem cart_orbit_one_in_domain (r t : Bool) (i j : Int) (hoff : t = true → i
       simp only [List.filter_cons, cartInDomain, if_true, decide_eq_true_eq] <;>
       repeat' split
     all_goals (first | rfl | (exfalso; omega))
+
+/-- **Cartesian grids, three-index arguments**: the axial index takes no part; the centre cell of a through-centre
+quarter core at any k has no equivalents; full core never has any -/
+theorem cart_equivalents_any_k (d : Nat) (r t : Bool) (i j k : Int) :
+    cartEquivalentsK d r t (i, j, k) = cartEquivalents d r t i j ∧
+    cartEquivalentsK 1 r true (0, 0, k) = some [] ∧ cartEquivalentsK 0 r t (i, j, k) = some [] :=
+  ⟨rfl, by simp [cartEquivalentsK, cartEquivalents], by simp [cartEquivalentsK, cartEquivalents]⟩
 
 example : cartEquivalents 1 true false 2 3 = some [(-4, 2), (-3, -4), (3, -3)] := by decide
 example : cartEquivalents 1 false true 0 3 = some [(0, -3)] := by decide
